@@ -389,31 +389,50 @@ def interface_mutation(ev, rep, scratch):
 def _contour_sched(job):
     """LazyContourList with a tiny capacity: every schedule of accesses
     (f = access style, p = event) returns the contour of that event"""
-    m, sched = job
+    m, sched, failpos = job
     from dclab.features.contour import LazyContourList, get_contour
     from .. import gen as g
-    masks = g.mask(range(1, 7))
-    fresh = [get_contour(mk) for mk in masks]
+    masks = np.array(g.mask(range(1, 7)))
+    # event 5 has no contour (empty mask): asking for it fails; what the
+    # list answers for the other events afterwards is still their contour
+    masks[5] = False
+    fresh = [get_contour(mk) for mk in masks[:5]]
     cl = LazyContourList(masks, max_events=m)
     obs, viol = [], None
     for i, (f, p) in enumerate(sched):
+        if failpos is not None and i >= failpos and (i - failpos) % 2 == 0:
+            try:
+                cl[5]
+            except BaseException:
+                pass
         e = (p - 1) % 5
-        if f == 1:
-            got, want = [cl[e]], [fresh[e]]
-        elif f == 2:
-            got, want = [cl[e - 6]], [fresh[e]]          # negative index
-        elif f == 3:
-            got, want = cl[e:e + 2], fresh[e:e + 2]      # slice
-        else:
-            got, want = [cl[np.int64(e)]], [fresh[e]]
+        try:
+            if f == 1:
+                got, want = [cl[e]], [fresh[e]]
+            elif f == 2:
+                got, want = [cl[e - 6]], [fresh[e]]      # negative index
+            elif f == 3:
+                if e == 4:
+                    got, want = cl[e - 1:e + 1], fresh[e - 1:e + 1]
+                else:
+                    got, want = cl[e:e + 2], fresh[e:e + 2]      # slice
+            else:
+                got, want = [cl[np.int64(e)]], [fresh[e]]
+        except Exception:
+            # the event has a contour (fresh computation succeeded)
+            got, want = [], [fresh[e]]
         ok = len(got) == len(want) and all(
             np.array_equal(a, b) for a, b in zip(got, want))
         obs.append(bool(ok))
         if not ok and viol is None:
             viol = ("lazy contour list returns the contour of another event",
-                    "capacity %d step %d access style %d event %d after %s"
-                    % (m, i, f, e, [list(x) for x in sched[:i]]), i)
+                    "capacity %d step %d access style %d event %d after %s%s"
+                    % (m, i, f, e, [list(x) for x in sched[:i]],
+                       "" if failpos is None else " with failing accesses "
+                       "to an event without contour from step %d" % failpos),
+                    i)
     return {"contour_capacity": m, "schedule": [list(x) for x in sched],
+            "failing_access_from_step": failpos,
             "fresh_equal": obs}, viol
 
 
@@ -599,9 +618,10 @@ def main(tier, seed, replay=None):
             rep.violation(viol[0], viol[1], case, size=viol[2])
 
     # 2b. the same schedules drive the lazily cached contours (capacity 2, 3)
-    cjobs = [(m, sc) for sc in scheds for m in (2, 3)]
+    cjobs = [(m, sc, fp) for sc in scheds for m in (2, 3)
+             for fp in (None, 0, 1)]
     if tier == "quick":
-        cjobs = par.sample(cjobs, 2, seed)
+        cjobs = par.sample(cjobs, 3, seed)
     for case, viol in par.pmap(_contour_sched, cjobs, chunk=300):
         ev.traces += 1
         ev.case(case, nontrivial=len({x[1] for x in case["schedule"]})
